@@ -927,7 +927,7 @@ SAMPLE_CFGS = [
     {"media": ["video"], "dc": "none"},
     {"media": [], "dc": "offerer"},
     {"media": ["audio"], "dc": "both", "no_bundle": True, "bundleA": "max-compat", "bundleB": "max-compat"},
-    {"media": ["audio", "video"], "dc": "offerer", "dc_first": True, "bundleA": "max-bundle", "bundleB": "max-bundle"},
+    {"media": ["audio", "video"], "dc": "offerer", "dc_first": True, "bundleA": "balanced", "bundleB": "max-bundle"},
     {"media": ["audio"], "dc": "none", "dir": "sendonly", "via": "transceiver"},
     {"media": ["video"], "dc": "offerer", "dir": "recvonly"},
     {"media": ["audio"], "dc": "none", "answer_track": False},
@@ -1148,9 +1148,10 @@ def tlc_chain(sc, thorough, out):
             runs.append(("live", model_cfg(["m", "md"], BOTH_ROLES, [True, False], ["u1", "u2"], invariants=[], props=live), [], 2400))
         else:
             runs.append(("exh_alive", model_cfg(["m", "d", "md"], BOTH_ROLES, [False], ["u1", "u2"]), ["-coverage", "1"], 600))
-            # the remote side may go away; liveness under weak fairness of every internal step
-            runs.append(("exh_peer", model_cfg(["md"], ["offerer"], [True], ["u1"], props=["SecondCloseNoop"] + live),
-                         ["-coverage", "1"], 900))
+            # the remote side may go away
+            runs.append(("exh_peer", model_cfg(["md"], ["offerer"], [True], ["u1"]), ["-coverage", "1"], 900))
+            # liveness under weak fairness of every internal step (small: liveness checking is the slow part)
+            runs.append(("live", model_cfg(["m"], ["answerer"], [True], ["u1"], invariants=[], props=live), [], 900))
         for name, cfg, args, to in runs:
             res = T.tlc(sc, "PcLife", cfg, workers=W, args=args, timeout=to)
             out[name] = res
@@ -1226,13 +1227,17 @@ def run():
                         "side": "A", "gap_ms": 0, "settle_ms": 20, "src": "reference"} for i, cfg in enumerate(ref_cfgs)]
             ref_res = pool.run(ref_scs)
             refs = []
+            ref_dropped = []
             for s in ref_scs:
                 res = ref_res[s["id"]]
                 if res.get("error"):
                     raise T.MachineryError("reference run failed: %s" % res["error"])
                 info = dict(res["info"])
                 if "flowing_iter" not in info:
-                    raise T.MachineryError("reference run did not reach media/data flow: %s %s" % (s["cfg"], info))
+                    if len(refs) < 3:
+                        raise T.MachineryError("reference run did not reach media/data flow: %s %s" % (s["cfg"], info))
+                    ref_dropped.append(s["cfg"])     # e.g. a configuration hit by a C03 finding: no iteration sweep
+                    continue
                 info["wall_to_end"] = info.get("wall_s", 1.0)
                 refs.append((s["cfg"], info))
 
@@ -1390,6 +1395,7 @@ def run():
             "failing_traces": len(fails), "reruns": reruns, "unreproduced_failures": unconfirmed,
             "binding_selftest": bind,
             "reference_iterations": [i.get("end_iter") for _, i in refs],
+            "reference_configs_not_flowing": ref_dropped,
             "samples": [good[0]["steps"][:12], good[-1]["steps"][:12]],
         }
         rep.assumptions = [
@@ -1411,16 +1417,20 @@ def binding_selftest(sc, good):
     """Corrupted copies of recorded traces must be rejected with the expected clause: the
     clause has to appear among the FAIL lines of the corrupted copy and not among those of
     the trace as recorded (so the test also works on a tree where no execution is clean)."""
-    def final_obs(t):
-        idx = [i for i, s in enumerate(t) if s["op"] == "observe" and s.get("final") == 1]
+    def ok_sides(t):
+        return {s["side"] for s in t if s["op"] == "close_ret" and s["n"] == 1 and s["res"] == "ok"}
+
+    def final_obs(t):      # the final observation of a side whose close() returned (only those are judged)
+        idx = [i for i, s in enumerate(t) if s["op"] == "observe" and s.get("final") == 1 and s["side"] in ok_sides(t)]
         return idx[-1] if idx else None
 
     def first_ret(t):
-        idx = [i for i, s in enumerate(t) if s["op"] == "close_ret" and s["n"] == 1]
+        idx = [i for i, s in enumerate(t) if s["op"] == "close_ret" and s["n"] == 1 and s["res"] == "ok"]
         return idx[0] if idx else None
 
     def later_ret(t):
-        idx = [i for i, s in enumerate(t) if s["op"] == "close_ret" and s["n"] >= 2 and s["res"] == "ok"]
+        idx = [i for i, s in enumerate(t) if s["op"] == "close_ret" and s["n"] >= 2 and s["res"] == "ok"
+               and s["side"] in ok_sides(t)]
         return idx[-1] if idx else None
 
     def set_final(field, value, need=None):
